@@ -76,7 +76,10 @@ type (
 	}
 )
 
-func (v *NumVal) IsInt() bool { return v.V == math.Trunc(v.V) }
+// IsInt 是否可以无损表示成 int64 (Int() 对超出范围的值, ±Inf 的转换结果未定义)
+func (v *NumVal) IsInt() bool {
+	return v.V == math.Trunc(v.V) && v.V >= -(1<<63) && v.V < 1<<63
+}
 func (v *NumVal) Int() int64  { return int64(v.V) }
 
 func (v *Val) Bool() *BoolVal   { return (*BoolVal)(unsafe.Pointer(v)) }
